@@ -33,6 +33,7 @@ struct PgmPeek : PGMType {
     static const auto &segs(const PGMType &p) { return p.*(&PgmPeek::segments); }
     static const auto &offs(const PGMType &p) { return p.*(&PgmPeek::levels_offsets); }
     static size_t count(const PGMType &p) { return p.*(&PgmPeek::n); }
+    static auto first(const PGMType &p) { return p.*(&PgmPeek::first_key); }
 };
 
 // ---- values: every written value is unique so that each read is attributable to one write ---------------------------
